@@ -1316,7 +1316,17 @@ class RewriteAtQuery(NodeTransformer):
                         annotation=self.replacement_node.value,
                     )
 
-                if idx is not None and len(node.args.defaults) > idx:
+                if idx is not None:
+                    # `defaults` belong to the last parameters, and `_idx` does not count a leading `self`/`cls`
+                    idx += next(
+                        (
+                            i - _arg._idx
+                            for i, _arg in enumerate(node.args.args)
+                            if hasattr(_arg, "_idx")
+                        ),
+                        0,
+                    ) - (len(node.args.args) - len(node.args.defaults))
+                if idx is not None and 0 <= idx < len(node.args.defaults):
                     new_default = get_value(self.replacement_node)
                     if new_default not in none_types:
                         node.args.defaults[idx] = new_default
